@@ -231,8 +231,16 @@ def body_histories(ctx):
     ctx.set_sample(case)
     if how != 'nothing':
         ctx.mark_nontrivial(repr(case))
+    loaded = ('contextualize_report', 'contextualize_report+verify', 'set_source')[ctx.choose(3, 'how-loaded')]
+    case['loaded'] = loaded
     cmds.clear_report()
-    cmds.contextualize_report(a)
+    if loaded == 'set_source':
+        set_source(a)
+    else:
+        cmds.contextualize_report(a)
+        if loaded.endswith('verify'):
+            from pedal.source import verify
+            verify()
     ctx.step('battery on the submission')
     want, got = _lite(a)
     ctx.evaluated(len(want))
@@ -241,12 +249,18 @@ def body_histories(ctx):
         return
     ctx.step(how)
     try:
+        tb = ast.parse(b)
+        want_b = sorted((n.lineno, n.col_offset) for n in ast.walk(tb) if isinstance(n, ast.Name))
+        got_b = None
         if how.startswith('find_asts'):
-            find_asts('Call', student_code=b)
+            got_b = sorted((g.astNode.lineno, g.astNode.col_offset) for g in find_asts('Name', student_code=b))
         elif how.startswith('find_matches'):
             find_matches('___', student_code=b)
         elif how.startswith('parse_program'):
-            parse_program(b)
+            got_b = sorted((g.astNode.lineno, g.astNode.col_offset) for g in parse_program(b).find_all('Name'))
+        if got_b is not None and got_b != want_b:
+            ctx.fail({'symptom': 'explicitly given code was not the code that was searched', 'how': how.split('(')[0],
+                      'loaded': loaded}, case=case, want=want_b, got=got_b)
         elif how.startswith('set_source'):
             set_source(b)
             wb, gb = _lite(b)
